@@ -1,4 +1,3 @@
 //! Correspondence harness: drives the real radixdlt-scrypto code (path deps on /repo)
-//! with generated op streams. One module per area; see /verif/DESIGN.md §2.
+//! with generated op streams. One binary per area under src/bin; see /verif/DESIGN.md §2.
 pub mod util;
-pub mod areas;
